@@ -31,6 +31,7 @@ type TraceItem struct {
 	Args   []string   // primitive call: every argument, with local copies / inlined parameters resolved
 	Recv   string     // primitive call: the receiver, resolved
 	Dst    string     // primitive call: the variable its (first) result is assigned to
+	End    string     // loop: how the interpreted pass through the body ended ("", "next-iteration", "return", "panic")
 	Call   *ast.CallExpr
 	Fn     *FuncInfo // function the call appears in
 }
@@ -85,6 +86,7 @@ type pathState struct {
 	sel     map[string]*selSet   // subject expression -> the constants it can still equal on this path (value dispatch)
 	retStmt *ast.ReturnStmt      // the return statement of the interpreted function that ended this path
 	aliasE  map[string]aliasExpr // boolean locals that name a condition: the condition itself (valid while alias[name] == text)
+	loopSel map[string]*selSet   // dispatch decisions taken inside a loop body (reported, never used to prune)
 }
 
 type aliasExpr struct {
@@ -220,6 +222,12 @@ func (s *pathState) clone() *pathState {
 		}
 	}
 	n.retStmt = s.retStmt
+	if len(s.loopSel) > 0 {
+		n.loopSel = map[string]*selSet{}
+		for k, v := range s.loopSel {
+			n.loopSel[k] = v
+		}
+	}
 	if len(s.aliasE) > 0 {
 		n.aliasE = map[string]aliasExpr{}
 		for k, v := range s.aliasE {
@@ -237,6 +245,7 @@ type tracer struct {
 	trackBuf   string                 // byte buffer whose appends / stores are recorded ("f.buf"), "" = off
 	trackVar   string                 // struct variable whose field assignments are recorded ("head"), "" = off
 	trackField string                 // field name whose assignments (on any variable) are recorded, "" = off
+	primVars   map[string]string      // calls through a function-typed variable of this name are primitives
 	unsup      []string
 	maxPaths   int
 	npaths     int
@@ -748,7 +757,7 @@ func (tr *tracer) execStmt(fi *FuncInfo, s ast.Stmt, st *pathState) []*pathState
 			// name the destination of a read
 			if len(s2.trace) > 0 && len(x.Lhs) >= 1 && len(x.Rhs) == 1 {
 				if c, ok := ast.Unparen(x.Rhs[0]).(*ast.CallExpr); ok {
-					if _, isPrim := tr.prims[calleeName(info, c)]; isPrim && s2.trace[len(s2.trace)-1].Pos == c.Pos() {
+					if s2.trace[len(s2.trace)-1].Call == c && s2.trace[len(s2.trace)-1].Pos == c.Pos() {
 						s2.trace[len(s2.trace)-1].Dst = exprStr(x.Lhs[0])
 					}
 					if _, isPrim := tr.prims[calleeName(info, c)]; isPrim && s2.trace[len(s2.trace)-1].Pos == c.Pos() && s2.trace[len(s2.trace)-1].Arg == "" {
@@ -893,10 +902,18 @@ func (tr *tracer) execStmt(fi *FuncInfo, s ast.Stmt, st *pathState) []*pathState
 					n.store[k] = st.store[k] | b.store[k]
 				}
 			}
-			n.trace = append(n.trace, TraceItem{Prim: "loop", Arg: loopArg, Body: b.trace, Pos: x.Pos()})
+			n.trace = append(n.trace, TraceItem{Prim: "loop", Arg: loopArg, Body: b.trace, Pos: x.Pos(), End: b.done})
 			if b.done == "return" || b.done == "panic" {
 				// a return inside the loop body: keep both the early-exit path and nothing else
 				n.done = b.done
+				n.retStmt = b.retStmt
+			}
+			// what the body decided about dispatch subjects stays visible to the rule (not used for pruning)
+			for k, v := range b.sel {
+				if n.loopSel == nil {
+					n.loopSel = map[string]*selSet{}
+				}
+				n.loopSel[k] = v.clone()
 			}
 			out = append(out, n)
 		}
@@ -1235,7 +1252,13 @@ func (tr *tracer) execExpr(fi *FuncInfo, e ast.Expr, states []*pathState) []*pat
 			}
 			continue
 		}
-		if prim, ok := tr.prims[name]; ok {
+		prim, isPrim := tr.prims[name]
+		if !isPrim && name == "" && tr.primVars != nil {
+			if id, isId := ast.Unparen(c.Fun).(*ast.Ident); isId {
+				prim, isPrim = tr.primVars[id.Name]
+			}
+		}
+		if isPrim {
 			arg := ""
 			if len(c.Args) > 0 {
 				arg = exprStr(c.Args[0])
@@ -1370,7 +1393,7 @@ func flat(ts []TraceItem) []TraceItem {
 		case "enter", "leave":
 			continue
 		case "loop":
-			out = append(out, TraceItem{Prim: "loop", Arg: t.Arg, Body: flat(t.Body), Pos: t.Pos})
+			out = append(out, TraceItem{Prim: "loop", Arg: t.Arg, Body: flat(t.Body), Pos: t.Pos, End: t.End})
 		default:
 			out = append(out, t)
 		}
@@ -1551,4 +1574,42 @@ func trueLits(st *pathState, fn string) []string {
 	}
 	sort.Strings(out)
 	return out
+}
+
+// decided returns, for the dispatch subject whose tested constants include one of names, the constants it is
+// restricted to on this path (inside or outside loops) and whether it is restricted at all.
+func (s *pathState) decided(names map[string]bool) (in []string, restricted bool, found bool) {
+	for _, m := range []map[string]*selSet{s.sel, s.loopSel} {
+		var keys []string
+		for k := range m {
+			keys = append(keys, k)
+		}
+		sort.Strings(keys)
+		for _, k := range keys {
+			x := m[k]
+			rel := false
+			for _, lbl := range x.in {
+				if names[strings.SplitN(lbl, "=", 2)[0]] {
+					rel = true
+				}
+			}
+			for _, lbl := range x.out {
+				if names[strings.SplitN(lbl, "=", 2)[0]] {
+					rel = true
+				}
+			}
+			if !rel {
+				continue
+			}
+			if x.in == nil {
+				return nil, false, true
+			}
+			for _, lbl := range x.in {
+				in = append(in, strings.SplitN(lbl, "=", 2)[0])
+			}
+			sort.Strings(in)
+			return in, true, true
+		}
+	}
+	return nil, false, false
 }
